@@ -171,3 +171,57 @@ for sid, (summ, needs) in M3.items():
                          "demonstration with and without the change; then tools/seedmatrix.py (see results.json): patch applied to a scratch worktree of /repo, checks run with VERIF_REPO pointing there, patch reverted")
     json.dump(m, open(p, "w"), indent=1)
 print("round 3 ok")
+
+M4 = {
+ "C01-r4.1": ("PessimisticLock::LockS registers with fetch_add and withdraws with fetch_sub; untouched UnlockX/DowngradeToSIX store the whole word", "the reader preempted before its fetch_add and again before its fetch_sub, with an X unlock or downgrade in between: the roll-back borrows the X/SIX bit away"),
+ "C01-r4.2": ("OptGuard::TryLockS/SIX/X give up when their CAS loses against a writer; the code after the loop decides 'granted' from version equality", "requester preempted between its load and its CAS while another thread acquires X: owning guard with nothing acquired"),
+ "C05-r4.1": ("ID table of 8-bit reservation counters: claim with fetch_add(1)==0, losers withdraw with fetch_sub, destructor stores 0", "a loser's +1 sits in the counter while the owner exits and a new owner claims; the late -1 clears the new owner's reservation (4 parties, 3 preemptions)"),
+ "C05-r4.2": ("bool array replaced by a 64-bit bitmap searched a word at a time; range check only for the first candidate", "capacity not a multiple of 64 and two threads racing for the last in-range free bit: out-of-range ID"),
+ "C06-r4.1": ("ZipfDistribution::UpdateCDF sums tail-first and drops the forced last entry = 1.0", "(bin count, alpha) pairs whose last entry lands at 1-2^-52 and an engine output in the top ulps: returns max+1"),
+ "C06-r4.2": ("ApproxZipfDistribution::operator() fast path runs lower_bound over the whole 100-entry table", "single-bin generators (default constructed, min == max): table {1.0, 0, ...}: returns 100"),
+ "C07-r4.1": ("MCSLock UpgradeToX/DowngradeToSIX hand ownership over only at the return of the tail-node case", "a successor already queued behind the converting guard: the consumed guard stays owning, grant released twice"),
+ "C07-r4.2": ("PrepareRead back-off fallback narrowed from kAllLockMask to kSMask while the return expression still tests kAllLockMask", "reader past kRetryNum polls sees an SIX holder and no reader: takes S but returns a non-owning guard, grant never released"),
+ "C10-r4.1": ("PessimisticLock: LockS with fetch_add/fetch_sub roll-back, UnlockX as fetch_and; DowngradeToSIX still stores kSIXLock", "reader preempted after its load and before its roll-back around LockX + DowngradeToSIX: SIX flag cleared, second SIX granted"),
+ "C10-r4.2": ("OptimisticLock::LockX writer-preferring: claims X with fetch_or after a load-check, then waits for S/SIX to clear", "LockSIX slips in between load and fetch_or, then UpgradeToX flips both flags: upgrader and pending writer both hold X"),
+ "C14-r4.1": ("waiters sleep with atomic wait on a release counter read after the probing round", "a holder exits between the prober's last slot check and the load of the counter: lost wake-up"),
+ "C14-r4.2": ("~HeartBeater parks its ID (flag still set) in a one-element recycled-ID cache read only before the probe loop", "a thread already inside the probe loop never sees the parked ID: spins for ever"),
+ "C15-r4.1": ("~HeartBeater moves the shared_ptr into a local and clears the reservation flag first (as C15-1)", "exiting thread preempted between the store and the closing brace while another thread claims the ID"),
+ "C15-r4.2": ("flag array replaced by a lock-free LIFO free list of IDs (ABA on the head, as C05-r2.3)", "four threads, one preemption, one thread exit: a later claimer gets an ID of a running thread whose heartbeat is unexpired"),
+ "C16-r4.1": ("re-entrant guards via a per-thread nesting counter; move assignment skips LeaveEpoch when both guards share an Epoch", "outer = std::move(inner) or a self-move: one nesting level leaks, the pin is never released"),
+ "C16-r4.2": ("CollectProtectedEpochs gathers epochs in a file-scope buffer shared by all EpochManager instances", "two manager instances, one coordinator preempted inside its scan while the other manager's coordinator forwards"),
+ "C18-r4.1": ("exact class: multiplication fast path for skews 0,1,2,3 computes i*i*i in uint64_t", "alpha == 3.0 exactly and more than 2,642,245 bins (gross from 4,194,304 bins)"),
+ "C18-r4.2": ("approximate class: trapezoid width max(100, n/10000) for the normalisation constant", "n above about 1.5 million and a mid-range skew: error 0.03 at n = 3*10^6"),
+ "C19-r4.1": ("ApproxZipfDistribution::operator() memoises CDF values in a thread-local table tagged by the generator's address", "copy/move assignment onto a generator already sampled on that thread, or construction in reused storage"),
+ "C19-r4.2": ("range check through a shared helper counting bins in int64_t (as C19-r2.3)", "uint64_t ranges with min >= 2^63 > max"),
+}
+for sid, (summ, needs) in M4.items():
+    p = os.path.join(V, "seeded", sid, "meta.json")
+    if not os.path.exists(p):
+        print("missing", sid); continue
+    m = json.load(open(p))
+    m["summary"] = summ
+    m["needs"] = needs
+    m["breaks_property"] = m.get("target_property")
+    m["round"] = 4
+    m["what_was_run"] = ("seeded/verify.sh of the sub-agent re-run by the framework author in a scratch worktree (see verify_result.txt): repository test suite with the change, "
+                         "demonstration with and without the change; then tools/seedmatrix.py (see results.json): patch applied to a scratch worktree of /repo, checks run with VERIF_REPO pointing there, patch reverted")
+    json.dump(m, open(p, "w"), indent=1)
+print("round 4 ok")
+B = {
+"B5-1":"PessimisticLock: LockS/LockSIX/LockX/UpgradeToX share one helper that first tries a single CAS without a prior load and retries on the value the failed CAS returned; UnlockX/DowngradeToSIX as fetch_and/fetch_xor; assertions",
+"B5-2":"OptimisticLock: GetVersion and both VerifyVersion share a wait-for-no-X helper with a single-load fast path; per-iteration release fence becomes one acq_rel fence before the loop; TryLock* share one helper reusing the failed-CAS value",
+"B5-3":"MCSLock: per-thread spare node moves from unique_ptr to a nested SpareNode holder (Peek/Take/Put); LockS detaches the spare only after the CAS that installs it as tail succeeds",
+"B5-4":"MCSLock: memory orders strengthened only (exchange/CAS/fetch_* to acq_rel, relaxed loads and CAS-failure orders to acquire)",
+"B6-1":"IDManager: reservation table becomes a 64-bit atomic bitmap (word-wise scan, lowest free bit claimed with fetch_or, released with fetch_and): different probing order",
+"B6-2":"IDManager: hot spin when every ID is taken replaced by an event-count protocol on a release counter (C++20 wait/notify, counter read before the sweep)",
+"B6-3":"EpochManager::CollectProtectedEpochs reads the pinned epoch before the heartbeat, skips values already in the list, skips sort/unique for the two-element list",
+"B6-4":"Epoch/EpochManager hardening: stronger memory orders, ForwardGlobalEpoch under a private std::mutex, assertions that cannot fire",
+"B7-1":"Zipf: shared helper computes each weight once, sums in long double, normalises by one division (low-order CDF bits differ from HEAD)",
+"B7-2":"Zipf: operator() uses lower-bound searches (std::lower_bound for the exact class, table/closed-form split for the approximate class)",
+"B7-3":"Zipf: each pow computed once, trapezoid loop reuses the previous endpoint, range check before deriving members",
+"B7-4":"ZipfDistribution gains a 257-entry guide table; operator() searches only the bins of the slot floor(u*256)",
+}
+for k, v in B.items():
+    p = os.path.join(V, "benign", k, "meta.json")
+    if os.path.exists(p):
+        m = json.load(open(p)); m["summary"] = v; json.dump(m, open(p, "w"), indent=1)
